@@ -296,12 +296,12 @@ Section Instance.
     destruct m as [v|f]; [destruct v|destruct f]; cbn in Hcp; try discriminate; inversion Hcp; subst cp;
       cbn [expected_fn] in Hc;
       destruct (kind_of T _) as [| |e| | |g e fflag fperm|fl p| |fn' flag k'|c|] eqn:Ek; try discriminate Hc;
-      try (cbn in Hc; destruct c; try discriminate Hc; cbn [Wrapper.run0]; apply Hgood; reflexivity).
+      try (cbn in Hc; destruct c; try discriminate Hc; cbn [Wrapper.run0]; unfold comp_cb; cbn [fst]; apply Hgood; reflexivity).
     all: apply andb_true_iff in Hc as [_ Hk]; cbn in Hk; destruct k'; try discriminate Hk;
       destruct c; try discriminate Hk; cbn [Wrapper.run0];
       destruct (ff (w_hist w) fn' (mk_flag flag a)) as [e|] eqn:Ef;
       [intros _ _; cbn; discriminate|].
-    all: unfold add_cons; cbn [fst r_cons r_ans]; intros [E|Hin] Hs; [discriminate|];
+    all: unfold add_cons, comp_cb; cbn [fst r_cons r_ans]; intros [E|Hin] Hs; [discriminate|];
       eapply Hgood; eauto.
   Qed.
 End Instance.
